@@ -89,6 +89,18 @@ func (w *World) Shutdown() {
 	nodes := w.nodes
 	w.nodes = nil
 	w.mu.Unlock()
+	if w.C != nil && w.C.Bubble && len(nodes) > 0 {
+		// Channel mediums with a queue own a goroutine that only the deferred
+		// broker-unsubscribe job stops, and Node.Shutdown drops pending jobs. Close
+		// the remaining connections first and give those jobs their virtual second.
+		for _, n := range nodes {
+			for _, cl := range n.Hub().Connections() {
+				cl.Disconnect(centrifuge.DisconnectShutdown)
+			}
+		}
+		time.Sleep(3 * time.Second)
+		synctest.Wait()
+	}
 	for _, n := range nodes {
 		clearHook(n)
 		_ = n.Shutdown(context.Background())
